@@ -79,6 +79,9 @@ pub fn handmade() -> Vec<(&'static str, &'static str)> {
         ("set-in-several-spellings", ".set Cnt = 1\n.set CNT = 2\n.dw cnt\n.set cNt = cnT + 5\n.dw CnT\n"),
         ("def-in-several-spellings", ".def Tmp = r16\n.undef TMP\n.def tMP = r17\ninc tmp\ninc TMP\n"),
         ("define-in-several-spellings", "#define Flag\n#define FLAG\n.ifdef flag\n.dw 1\n.endif\n.ifdef Flag\n.dw 2\n.endif\n.ifdef FLAG\n.dw 3\n.endif\n"),
+        ("define-in-several-spellings-then-undef", "#define DEBUG\n#define Debug\n#define debug\n.undef debuG\n.ifdef DEBUG\n.dw 1\n.endif\n.ifdef Debug\n.dw 2\n.endif\n.ifdef debug\n.dw 3\n.endif\n"),
+        ("define-in-several-spellings-then-hash-undef", "#define Trace\n#define TRACE\n#undef trace\n.ifdef Trace\n.dw 1\n.else\n.dw 2\n.endif\n.ifdef TRACE\n.dw 3\n.else\n.dw 4\n.endif\n"),
+        ("def-in-several-spellings-then-undef", ".def Acc = r16\n.undef ACC\n.def ACC = r17\n.def acc2 = r18\n.undef Acc, aCC2\ninc acc\n"),
         ("labels-differing-in-case-only", "Here: nop\nHERE: nop\nrjmp here\n"),
         ("equs-differing-in-case-only", ".equ Val = 1\n.equ VAL = 2\n.dw val\n"),
         ("equ-and-label-differing-in-case", ".equ Spot = 7\nnop\nSPOT: nop\n.dw spot\n"),
